@@ -272,9 +272,9 @@ theorem sur_sum_closed (l : MsLayout) (hl : MsLayoutOk l) (fs fsz br : Int) (ha 
     push_cast at hk ⊢
     split_ifs <;> first
       | omega
-      | ring
+      | ring1
       | (have hkeq : (k : Int) = l.nbCoupled := by omega
-         rw [hkeq]; ring)
+         rw [hkeq]; ring1)
 
 theorem sur_sum_eq (l : MsLayout) (hl : MsLayoutOk l) (fs fsz br : Int) (ha : l.ambisonics = false) :
     msRateSum l fs fsz br =
@@ -298,5 +298,419 @@ theorem sur_sum_eq (l : MsLayout) (hl : MsLayoutOk l) (fs fsz br : Int) (ha : l.
       have : l.nbStreams = l.nbCoupled := by omega
       rw [this]; ring
     · rw [if_neg hc]
+
+theorem sur_core_lo (c u L co lo RL S nn : Int) (hL : L = 0 ∨ L = 1) (hnn : nn = 2 * c + u)
+    (hRL1 : 500 ≤ RL) (hRL2 : RL ≤ lo) (hS : S = c * (2 * co) + u * co + L * RL) :
+    co * nn + 500 * L ≤ S ∧ S ≤ co * nn + lo * L := by
+  subst hnn hS
+  rcases hL with rfl | rfl <;> constructor <;> nlinarith
+
+/-- **Sum of the allocated rates, surround / plain layouts.**  If the total covers the per-channel and LFE offsets the
+    allocation hands out the total up to rounding: `bitrate − nb_normal − 1 ≤ Σ ≤ bitrate`; otherwise every stream
+    keeps its offset and the sum EXCEEDS the requested total:
+    `channel_offset·nb_normal + 500·nb_lfe ≤ Σ ≤ channel_offset·nb_normal + lfe_offset·nb_lfe`. -/
+theorem msSur_sum (l : MsLayout) (fs fsz nch br : Int) (h : SurIn l fs fsz nch br) (ha : l.ambisonics = false) :
+    let v := msSurVals l fs fsz br
+    (v.channelOffset * v.nbNormal + v.lfeOffset * v.nbLfe ≤ v.bitrate →
+       v.bitrate - v.nbNormal - 1 ≤ msRateSum l fs fsz br ∧ msRateSum l fs fsz br ≤ v.bitrate) ∧
+    (v.bitrate < v.channelOffset * v.nbNormal + v.lfeOffset * v.nbLfe →
+       v.channelOffset * v.nbNormal + 500 * v.nbLfe ≤ msRateSum l fs fsz br ∧
+       msRateSum l fs fsz br ≤ v.channelOffset * v.nbNormal + v.lfeOffset * v.nbLfe) := by
+  intro v
+  have F := sur_facts l fs fsz nch br h
+  have hsum := sur_sum_eq l h.lay fs fsz br ha
+  have hc0 := h.lay.c0
+  change SurFacts l v at F
+  rw [show msSurVals l fs fsz br = v from rfl, ← F.Leq, ← F.ueq] at hsum
+  obtain ⟨L01, -, u0, -, nneq, nn1, -, toteq, co1, -, -, -, lo1, -, so1, -, soHi, soLo, numeq, crHi, crLo⟩ := F
+  constructor
+  · intro hX
+    have hX' : 0 ≤ v.bitrate - v.channelOffset * v.nbNormal - v.lfeOffset * v.nbLfe := by omega
+    have hso := soHi hX'
+    have hnum : 0 ≤ v.num := by
+      have a1 : v.streamOffset * (l.nbCoupled + v.nbUncoupled) ≤ v.streamOffset * v.nbNormal :=
+        Int.mul_le_mul_of_nonneg_left (by omega) so1
+      have a2 : 0 ≤ v.streamOffset * v.nbNormal := Int.mul_nonneg so1 (by omega)
+      rw [numeq]; nlinarith
+    obtain ⟨cr0, cr1, cr2⟩ := crHi hnum
+    have hRC : surRC v = 2 * v.channelOffset + (v.streamOffset + 2 * v.channelRate) := by unfold surRC; omega
+    have hRU : surRU v = v.channelOffset + (v.streamOffset + v.channelRate) := by unfold surRU; omega
+    have hRL : surRL v = v.lfeOffset + v.channelRate * 32 / 256 := by unfold surRL; omega
+    rw [hRC, hRU, hRL] at hsum
+    exact sur_core_hi l.nbCoupled v.nbUncoupled v.nbLfe v.channelOffset v.lfeOffset v.bitrate v.streamOffset v.channelRate
+      (v.channelRate * 32 / 256) _ v.nbNormal v.total v.num hc0 u0 L01 nneq so1 numeq toteq cr1 cr2 (by omega) (by omega) hsum
+  · intro hX
+    have hso := soLo (by omega)
+    have hnum : v.num < 0 := by rw [numeq, hso]; omega
+    obtain ⟨cr0, -, -⟩ := crLo hnum
+    have hRC : surRC v = 2 * v.channelOffset := by unfold surRC; omega
+    have hRU : surRU v = v.channelOffset := by unfold surRU; omega
+    have hRL1 : 500 ≤ surRL v := by unfold surRL; omega
+    have hRL2 : surRL v ≤ v.lfeOffset := by unfold surRL; omega
+    rw [hRC, hRU] at hsum
+    exact sur_core_lo l.nbCoupled v.nbUncoupled v.nbLfe v.channelOffset v.lfeOffset (surRL v) _ v.nbNormal L01 nneq hRL1 hRL2 hsum
+
+/-- **Per-stream floors, surround / plain layouts**: a coupled stream gets at least `2·channel_offset` (≥ 4000 b/s), any
+    other non-LFE stream at least `channel_offset` (≥ 2000 b/s), the LFE stream at least 500 b/s — so the floor of
+    :794 can only ever act on the LFE stream. -/
+theorem msSur_floor (l : MsLayout) (fs fsz nch br : Int) (h : SurIn l fs fsz nch br) (ha : l.ambisonics = false) (i : Int) :
+    500 ≤ msRate l fs fsz br i ∧
+    (i < l.nbCoupled → 2 * (msSurVals l fs fsz br).channelOffset ≤ msRate l fs fsz br i ∧ 4000 ≤ msRate l fs fsz br i) ∧
+    (l.nbCoupled ≤ i → i ≠ l.lfeStream →
+       (msSurVals l fs fsz br).channelOffset ≤ msRate l fs fsz br i ∧ 2000 ≤ msRate l fs fsz br i) := by
+  have F := sur_facts l fs fsz nch br h
+  rw [msRate_class l fs fsz br i ha]
+  generalize msSurVals l fs fsz br = v at *
+  have := F.co1
+  refine ⟨?_, ?_, ?_⟩
+  · split
+    · unfold surRC; omega
+    · split
+      · unfold surRU; omega
+      · unfold surRL; omega
+  · intro hi; rw [if_pos hi]; unfold surRC; omega
+  · intro hi hl; rw [if_neg (by omega), if_pos hl]; unfold surRU; omega
+
+/-! ### ambisonics -/
+
+theorem msRate_ambi (l : MsLayout) (fs fsz br i : Int) (ha : l.ambisonics = true) :
+    msRate l fs fsz br i = max (Int.tdiv (msAmbiTotal l fs fsz br) l.nbStreams) 500 := by
+  unfold msRate msRateRaw
+  rw [ha]; rfl
+
+theorem ambi_sum_closed (l : MsLayout) (fs fsz br : Int) (ha : l.ambisonics = true) :
+    ∀ k : Nat, msRateSumTo l fs fsz br k = k * max (Int.tdiv (msAmbiTotal l fs fsz br) l.nbStreams) 500 := by
+  intro k
+  induction k with
+  | zero => simp [msRateSumTo]
+  | succ k ih => rw [msRateSumTo, ih, msRate_ambi l fs fsz br k ha]; push_cast; ring
+
+theorem ambi_total_range (l : MsLayout) (hl : MsLayoutOk l) (fs fsz nch br : Int) (hfs1 : 8000 ≤ fs) (hfs2 : fs ≤ 48000)
+    (hq1 : 0 ≤ 60 * fs / fsz) (hq2 : 60 * fs / fsz ≤ 24000) (hn1 : l.nbStreams + l.nbCoupled ≤ nch) (hn2 : nch ≤ 255)
+    (hbr : MsBrOk nch br) :
+    500 * l.nbStreams ≤ msAmbiTotal l fs fsz br ∧ msAmbiTotal l fs fsz br ≤ 81600000 ∧
+    (br = OPUS_AUTO → 23000 * l.nbStreams ≤ msAmbiTotal l fs fsz br) := by
+  obtain ⟨h1, h2, h3, h4, -, -⟩ := hl
+  unfold msAmbiTotal
+  unfold MsBrOk at hbr
+  have hA : OPUS_AUTO = -1000 := rfl
+  have hM : OPUS_BITRATE_MAX = -1 := rfl
+  by_cases hba : br = OPUS_AUTO
+  · rw [if_pos hba]
+    have a1 : (l.nbCoupled + l.nbStreams) * 8000 ≤ (l.nbCoupled + l.nbStreams) * (fs + 60 * fs / fsz) :=
+      Int.mul_le_mul_of_nonneg_left (by omega) (by omega)
+    have a2 : (l.nbCoupled + l.nbStreams) * (fs + 60 * fs / fsz) ≤ (l.nbCoupled + l.nbStreams) * 72000 :=
+      Int.mul_le_mul_of_nonneg_left (by omega) (by omega)
+    exact ⟨by omega, by omega, fun _ => by omega⟩
+  · rw [if_neg hba]
+    by_cases hbm : br = OPUS_BITRATE_MAX
+    · rw [if_pos hbm]; exact ⟨by omega, by omega, fun h => absurd h hba⟩
+    · rw [if_neg hbm]; exact ⟨by omega, by omega, fun h => absurd h hba⟩
+
+/-- **Ambisonics allocation**: every stream gets the same rate `R = total / nb_streams ≥ 500` (the floor of :794 is
+    never active for a setting the ctl admits), and `total − nb_streams < Σ = nb_streams·R ≤ total`. -/
+theorem msAmbi_sum (l : MsLayout) (hl : MsLayoutOk l) (fs fsz nch br : Int) (ha : l.ambisonics = true)
+    (hfs1 : 8000 ≤ fs) (hfs2 : fs ≤ 48000) (hq1 : 0 ≤ 60 * fs / fsz) (hq2 : 60 * fs / fsz ≤ 24000)
+    (hn1 : l.nbStreams + l.nbCoupled ≤ nch) (hn2 : nch ≤ 255) (hbr : MsBrOk nch br) :
+    ∃ R : Int, (∀ i, msRate l fs fsz br i = R) ∧ 500 ≤ R ∧ msRateSum l fs fsz br = l.nbStreams * R ∧
+      msAmbiTotal l fs fsz br - l.nbStreams < msRateSum l fs fsz br ∧ msRateSum l fs fsz br ≤ msAmbiTotal l fs fsz br ∧
+      (br = OPUS_AUTO → 23000 ≤ R) := by
+  obtain ⟨t1, t2, t3⟩ := ambi_total_range l hl fs fsz nch br hfs1 hfs2 hq1 hq2 hn1 hn2 hbr
+  have hn := hl.n1
+  obtain ⟨q0, q1, q2⟩ := (tdiv_spec (msAmbiTotal l fs fsz br) l.nbStreams (by omega)).1 (by omega)
+  have hq500 : 500 ≤ Int.tdiv (msAmbiTotal l fs fsz br) l.nbStreams := by
+    by_contra hlt
+    have : (Int.tdiv (msAmbiTotal l fs fsz br) l.nbStreams + 1) * l.nbStreams ≤ 500 * l.nbStreams :=
+      Int.mul_le_mul_of_nonneg_right (by omega) (by omega)
+    omega
+  have hmax : max (Int.tdiv (msAmbiTotal l fs fsz br) l.nbStreams) 500 = Int.tdiv (msAmbiTotal l fs fsz br) l.nbStreams := by omega
+  have hsum : msRateSum l fs fsz br = l.nbStreams * Int.tdiv (msAmbiTotal l fs fsz br) l.nbStreams := by
+    unfold msRateSum
+    rw [ambi_sum_closed l fs fsz br ha, hmax, Int.toNat_of_nonneg (by omega)]
+  refine ⟨Int.tdiv (msAmbiTotal l fs fsz br) l.nbStreams, fun i => by rw [msRate_ambi l fs fsz br i ha, hmax], hq500, hsum, ?_, ?_, ?_⟩
+  · rw [hsum]; nlinarith
+  · rw [hsum]; nlinarith
+  · intro hb
+    have := t3 hb
+    by_contra hlt
+    have : (Int.tdiv (msAmbiTotal l fs fsz br) l.nbStreams + 1) * l.nbStreams ≤ 23000 * l.nbStreams :=
+      Int.mul_le_mul_of_nonneg_right (by omega) (by omega)
+    omega
+
+/-! ### OPUS_AUTO in CBR: the allocated sum is always worth `smallest_packet` bytes -/
+
+theorem surIn_of (l : MsLayout) (hl : MsLayoutOk l) (fs fsz nch br : Int)
+    (hfs : fs = 8000 ∨ fs = 12000 ∨ fs = 16000 ∨ fs = 24000 ∨ fs = 48000) (hleg : legalFrame fs fsz = true)
+    (hn1 : l.nbStreams + l.nbCoupled ≤ nch) (hn2 : nch ≤ 255) (hbr : MsBrOk nch br) : SurIn l fs fsz nch br := by
+  obtain ⟨-, r1, r2, -, -, -, -⟩ := legal_rate fs fsz hfs hleg
+  exact ⟨hl, by omega, by omega, r1, r2, hn1, hn2, hbr⟩
+
+theorem ms_auto_sum_ge (l : MsLayout) (hl : MsLayoutOk l) (fs fsz : Int)
+    (hfs : fs = 8000 ∨ fs = 12000 ∨ fs = 16000 ∨ fs = 24000 ∨ fs = 48000) (hleg : legalFrame fs fsz = true) :
+    9600 * l.nbStreams ≤ msRateSum l fs fsz OPUS_AUTO := by
+  obtain ⟨hfz, r1, r2, d1, d2, q1, q2⟩ := legal_rate fs fsz hfs hleg
+  have hbr : MsBrOk (l.nbStreams + l.nbCoupled) OPUS_AUTO := Or.inl rfl
+  by_cases ha : l.ambisonics = true
+  · obtain ⟨R, -, -, hs, -, -, hR⟩ := msAmbi_sum l hl fs fsz _ OPUS_AUTO ha (by omega) (by omega) q1 q2 (Int.le_refl _) hl.tot hbr
+    have := hR rfl
+    have hn := hl.n1
+    have : l.nbStreams * 23000 ≤ l.nbStreams * R := Int.mul_le_mul_of_nonneg_left (by omega) (by omega)
+    omega
+  · have ha' : l.ambisonics = false := by cases h : l.ambisonics <;> simp_all
+    have hin := surIn_of l hl fs fsz _ OPUS_AUTO hfs hleg (Int.le_refl _) hl.tot hbr
+    have F := sur_facts l fs fsz _ OPUS_AUTO hin
+    obtain ⟨hhi, -⟩ := msSur_sum l fs fsz _ OPUS_AUTO hin ha'
+    obtain ⟨e1, e2, -⟩ := sur_eqs l fs fsz OPUS_AUTO
+    obtain ⟨-, -, hB, -, -⟩ := sur_bitrate_range l fs (msSurVals l fs fsz OPUS_AUTO).channelOffset _ OPUS_AUTO
+      (msSurVals l fs fsz OPUS_AUTO).nbNormal (msSurVals l fs fsz OPUS_AUTO).nbLfe F.Leq (by rw [F.nneq, F.ueq]) F.nn1 hl.tot
+      (by omega) (by omega) F.co1 F.co2 (by have := hl.n1; have := hl.c0; omega) hl.tot hbr
+    have hB := hB rfl
+    rw [← e2] at hB
+    generalize msSurVals l fs fsz OPUS_AUTO = v at *
+    obtain ⟨L01, -, u0, ueq, nneq, nn1, -, -, co1, -, -, -, -, lo2, -⟩ := F
+    have hc0 := hl.c0
+    have hfs1 : 8000 ≤ fs := by omega
+    have hp : v.nbNormal * 18000 ≤ v.nbNormal * (fs + 10000) := Int.mul_le_mul_of_nonneg_left (by omega) (by omega)
+    have hcov : v.channelOffset * v.nbNormal + v.lfeOffset * v.nbLfe ≤ v.bitrate := by
+      rw [hB]
+      rcases L01 with h0 | h0 <;> rw [h0] <;> nlinarith
+    obtain ⟨hlo, -⟩ := hhi hcov
+    have hn : l.nbStreams ≤ v.nbNormal + v.nbLfe := by omega
+    have : v.nbNormal * 20000 ≤ v.nbNormal * (v.channelOffset + fs + 10000) := Int.mul_le_mul_of_nonneg_left (by omega) (by omega)
+    rcases L01 with h0 | h0 <;> rw [h0] at hB hn <;> omega
+
+/-- The hypothesis `hauto` of `ms_encode_ret_le_out`, discharged: with OPUS_AUTO the CBR clamp
+    `3*rate_sum/(3*8*Fs/frame_size)` of :882 is never below `smallest_packet`. -/
+theorem ms_auto_enough (l : MsLayout) (hl : MsLayoutOk l) (fs fsz : Int)
+    (hfs : fs = 8000 ∨ fs = 12000 ∨ fs = 16000 ∨ fs = 24000 ∨ fs = 48000) (hleg : legalFrame fs fsz = true) :
+    msSmallest l.nbStreams fs fsz ≤ 3 * msRateSum l fs fsz OPUS_AUTO / (3 * 8 * fs / fsz) := by
+  obtain ⟨hfz, r1, r2, d1, d2, q1, q2⟩ := legal_rate fs fsz hfs hleg
+  have hs := ms_auto_sum_ge l hl fs fsz hfs hleg
+  have hn := hl.n1
+  rw [Int.le_ediv_iff_mul_le d1]
+  have hS0 : 0 ≤ msSmallest l.nbStreams fs fsz := by unfold msSmallest; dsimp only; split <;> omega
+  have hS1 : msSmallest l.nbStreams fs fsz ≤ 3 * l.nbStreams := by unfold msSmallest; dsimp only; split <;> omega
+  have : msSmallest l.nbStreams fs fsz * (3 * 8 * fs / fsz) ≤ msSmallest l.nbStreams fs fsz * 9600 :=
+    Int.mul_le_mul_of_nonneg_left d2 hS0
+  omega
+
+/-! ### no 32-bit overflow -/
+
+theorem fits_of (x : Int) (h1 : -2147483648 ≤ x) (h2 : x ≤ 2147483647) : fitsI32 x = true := by
+  unfold fitsI32; simp only [decide_eq_true_eq]; exact ⟨h1, h2⟩
+
+theorem mul_range (a b A B : Int) (ha0 : 0 ≤ a) (ha : a ≤ A) (hb0 : 0 ≤ b) (hb : b ≤ B) : 0 ≤ a * b ∧ a * b ≤ A * B :=
+  ⟨Int.mul_nonneg ha0 hb0, Int.mul_le_mul ha hb hb0 (by omega)⟩
+
+/-- **No 32-bit overflow, surround / plain layouts.**  For every layout, frame size and bit-rate setting the API
+    admits, every `int`/`opus_int32` intermediate of `surround_rate_allocation` and the sum of `rate_allocation`
+    fit 32 bits and no division is by zero — PROVIDED that, when there is a coupled or an LFE stream, the number of input
+    channels (which bounds the bit-rate the ctl accepts, 300000 per input channel) is at most 13 per coded channel.
+    All layouts made by the surround / ambisonics / projection create functions have
+    nb_channels = nb_streams + nb_coupled and satisfy this (`msFits_standard`); a plain
+    `opus_multistream_encoder_create` layout with ≥ 28 input channels feeding one coupled stream does not, and there
+    `channel_rate*coupled_ratio` of :729 overflows (`msFits_counterexample`). -/
+theorem msFits_sur (l : MsLayout) (fs fsz nch br : Int) (h : SurIn l fs fsz nch br) (ha : l.ambisonics = false)
+    (hcap : (0 < l.nbCoupled ∨ l.lfeStream ≠ -1) → nch ≤ 13 * (l.nbStreams + l.nbCoupled - msNbLfe l)) :
+    msFits l fs fsz br = true := by
+  have F := sur_facts l fs fsz nch br h
+  obtain ⟨hhi, hlo⟩ := msSur_sum l fs fsz nch br h ha
+  obtain ⟨e1, e2, -⟩ := sur_eqs l fs fsz br
+  have hl := h.lay
+  obtain ⟨-, -, -, -, hBmax⟩ := sur_bitrate_range l fs (msSurVals l fs fsz br).channelOffset nch br
+      (msSurVals l fs fsz br).nbNormal (msSurVals l fs fsz br).nbLfe F.Leq (by rw [F.nneq, F.ueq]) F.nn1 hl.tot
+      h.fs1 h.fs2 F.co1 F.co2 (by have := hl.n1; have := hl.c0; have := h.nch1; omega) h.nch2 h.br
+  rw [← e2] at hBmax
+  unfold msFits
+  rw [ha]
+  simp only [Bool.false_eq_true, if_false, Bool.and_eq_true, Bool.or_eq_true, decide_eq_true_eq, and_assoc]
+  generalize hS : msRateSum l fs fsz br = S at *
+  generalize msSurVals l fs fsz br = v at *
+  obtain ⟨L01, Leq, u0, ueq, nneq, nn1, nn2, toteq, co1, co2, b1, b2, lo1, lo2, so1, so2, soHi, soLo, numeq, crHi, crLo⟩ := F
+  have hc0 := hl.c0
+  have hfs1 := h.fs1
+  have hfs2 := h.fs2
+  have hcu : l.nbCoupled + v.nbUncoupled ≤ 255 := by have := hl.tot; omega
+  obtain ⟨p1a, p1b⟩ := mul_range v.nbNormal (v.channelOffset + fs + 10000) 255 74000 (by omega) nn2 (by omega) (by omega)
+  obtain ⟨p2a, p2b⟩ := mul_range v.channelOffset v.nbNormal 16000 255 (by omega) co2 (by omega) nn2
+  obtain ⟨p3a, p3b⟩ := mul_range v.lfeOffset v.nbLfe 9000 1 (by omega) lo2 (by omega) (by omega)
+  obtain ⟨p4a, p4b⟩ := mul_range v.streamOffset (l.nbCoupled + v.nbUncoupled) 20000 255 so1 so2 (by omega) hcu
+  have ht256 : 256 * v.nbNormal ≤ v.total := by omega
+  -- the sign of `num` follows the sign of the covered amount
+  have hnumcase : (0 ≤ v.num ∧ 0 ≤ v.channelRate ∧ v.channelRate * v.nbNormal ≤ v.bitrate) ∨
+      (v.num < 0 ∧ v.channelRate ≤ 0 ∧ -4089000 ≤ v.channelRate) := by
+    rcases Int.lt_or_le (v.bitrate - v.channelOffset * v.nbNormal - v.lfeOffset * v.nbLfe) 0 with hX | hX
+    · right
+      have hso := soLo hX
+      have hnum : v.num < 0 := by rw [numeq, hso]; omega
+      obtain ⟨c0, c1, -⟩ := crLo hnum
+      have hn2 : -4089000 ≤ v.num := by rw [numeq, hso]; omega
+      have : v.channelRate * v.total ≤ v.channelRate * 256 :=
+        Int.mul_le_mul_of_nonpos_left c0 (by omega : (256 : Int) ≤ v.total)
+      exact ⟨hnum, c0, by omega⟩
+    · left
+      have hso := soHi hX
+      have hnum : 0 ≤ v.num := by
+        have a1 : v.streamOffset * (l.nbCoupled + v.nbUncoupled) ≤ v.streamOffset * v.nbNormal :=
+          Int.mul_le_mul_of_nonneg_left (by omega) so1
+        have a2 : 0 ≤ v.streamOffset * v.nbNormal := Int.mul_nonneg so1 (by omega)
+        rw [numeq]; nlinarith
+      obtain ⟨c0, c1, -⟩ := crHi hnum
+      have : v.channelRate * (256 * v.nbNormal) ≤ v.channelRate * v.total := Int.mul_le_mul_of_nonneg_left ht256 c0
+      have hnb : v.num ≤ v.bitrate := by rw [numeq]; omega
+      exact ⟨hnum, c0, by nlinarith⟩
+  have hcr1 : -4089000 ≤ v.channelRate := by rcases hnumcase with h | h <;> omega
+  have hcr2 : v.channelRate ≤ v.bitrate := by
+    rcases hnumcase with ⟨-, c0, c1⟩ | h
+    · have : v.channelRate * 1 ≤ v.channelRate * v.nbNormal := Int.mul_le_mul_of_nonneg_left nn1 c0
+      omega
+    · omega
+  have hcr3 : (0 < l.nbCoupled ∨ l.lfeStream ≠ -1) → v.channelRate ≤ 4194303 := by
+    intro hc
+    have hcap := hcap hc
+    rw [← Leq] at hcap
+    rcases hnumcase with ⟨-, c0, c1⟩ | h
+    · by_contra hgt
+      have : 4194304 * v.nbNormal ≤ v.channelRate * v.nbNormal := Int.mul_le_mul_of_nonneg_right (by omega) (by omega)
+      omega
+    · omega
+  have hS0 : 0 ≤ S ∧ S ≤ 76500000 := by
+    rcases Int.lt_or_le v.bitrate (v.channelOffset * v.nbNormal + v.lfeOffset * v.nbLfe) with hX | hX
+    · have := hlo hX; omega
+    · have := hhi hX; omega
+  have hLne : v.nbLfe = 0 ∨ l.lfeStream ≠ -1 := by
+    rw [Leq]; unfold msNbLfe; split
+    · right; assumption
+    · left; rfl
+  refine ⟨by omega, by omega, ?_, ?_, ?_, ?_, ?_, ?_, ?_, ?_, ?_, ?_, ?_, ?_, ?_, ?_, ?_, ?_, ?_, ?_⟩
+  all_goals first
+    | (apply fits_of <;> omega)
+    | skip
+  · by_cases hc : l.nbCoupled ≤ 0
+    · left; exact hc
+    · right
+      have := hcr3 (Or.inl (by omega))
+      exact ⟨by apply fits_of <;> omega, by apply fits_of <;> omega⟩
+  · rcases hLne with h0 | h0
+    · left; exact h0
+    · right
+      have := hcr3 (Or.inr h0)
+      apply fits_of <;> omega
+
+/-- No 32-bit overflow, ambisonics: unconditional. -/
+theorem msFits_ambi (l : MsLayout) (hl : MsLayoutOk l) (fs fsz nch br : Int) (ha : l.ambisonics = true)
+    (hfs1 : 8000 ≤ fs) (hfs2 : fs ≤ 48000) (hq1 : 0 ≤ 60 * fs / fsz) (hq2 : 60 * fs / fsz ≤ 24000)
+    (hn1 : l.nbStreams + l.nbCoupled ≤ nch) (hn2 : nch ≤ 255) (hbr : MsBrOk nch br) :
+    msFits l fs fsz br = true := by
+  obtain ⟨t1, t2, -⟩ := ambi_total_range l hl fs fsz nch br hfs1 hfs2 hq1 hq2 hn1 hn2 hbr
+  obtain ⟨R, -, -, -, s1, s2, -⟩ := msAmbi_sum l hl fs fsz nch br ha hfs1 hfs2 hq1 hq2 hn1 hn2 hbr
+  obtain ⟨h1, h2, h3, h4, -, -⟩ := hl
+  unfold msFits
+  rw [ha]
+  simp only [if_true, Bool.and_eq_true, decide_eq_true_eq, and_assoc]
+  obtain ⟨p1a, p1b⟩ := mul_range (l.nbCoupled + l.nbStreams) (fs + 60 * fs / fsz) 255 72000 (by omega) (by omega) (by omega) (by omega)
+  refine ⟨?_, ?_, ?_, ?_, ?_, by omega, ?_⟩ <;> apply fits_of <;> omega
+
+/-- Every layout whose input channels are exactly its coded channels (`nb_channels = nb_streams + nb_coupled`:
+    mapping families 0, 1, 2, 3, 255) is free of overflow for every frame size and every bit-rate setting. -/
+theorem msFits_standard (l : MsLayout) (hl : MsLayoutOk l) (fs fsz br : Int)
+    (hfs : fs = 8000 ∨ fs = 12000 ∨ fs = 16000 ∨ fs = 24000 ∨ fs = 48000) (hleg : legalFrame fs fsz = true)
+    (hbr : MsBrOk (l.nbStreams + l.nbCoupled) br) : msFits l fs fsz br = true := by
+  obtain ⟨-, r1, r2, -, -, q1, q2⟩ := legal_rate fs fsz hfs hleg
+  by_cases ha : l.ambisonics = true
+  · exact msFits_ambi l hl fs fsz _ br ha (by omega) (by omega) q1 q2 (Int.le_refl _) hl.tot hbr
+  · have ha' : l.ambisonics = false := by cases h : l.ambisonics <;> simp_all
+    refine msFits_sur l fs fsz _ br (surIn_of l hl fs fsz _ br hfs hleg (Int.le_refl _) hl.tot hbr) ha' ?_
+    intro hc
+    obtain ⟨h1, h2, h3, h4, h5, -⟩ := hl
+    unfold msNbLfe
+    split
+    · rename_i hlf
+      rcases h5 with h5 | h5
+      · exact absurd h5 hlf
+      · omega
+    · rename_i hlf
+      rcases hc with hc | hc
+      · omega
+      · exact absurd hc hlf
+
+/-- … but NOT every layout `opus_multistream_encoder_create` accepts: 30 input channels (28 of them muted, mapping 255)
+    feeding one coupled stream, `OPUS_SET_BITRATE(9000000)` (accepted: ≤ 300000·30), 20 ms at 48 kHz:
+    `channel_rate = 4488000` and `channel_rate*coupled_ratio = 2297856000 > INT_MAX` at :729. -/
+theorem msFits_counterexample :
+    msCtlBitrate 30 9000000 = some 9000000 ∧
+    MsLayoutOk { nbStreams := 1, nbCoupled := 1, lfeStream := -1, ambisonics := false } ∧
+    (msSurVals { nbStreams := 1, nbCoupled := 1, lfeStream := -1, ambisonics := false } 48000 960 9000000).channelRate = 4488000 ∧
+    msFits { nbStreams := 1, nbCoupled := 1, lfeStream := -1, ambisonics := false } 48000 960 9000000 = false := by
+  refine ⟨by decide, ⟨by decide, by decide, by decide, by decide, Or.inl rfl, fun h => by cases h⟩, by decide +kernel, by decide +kernel⟩
+
+/-- The clamp arithmetic of `opus_multistream_encode_native` (:882-886) and the per-stream `OPUS_SET_BITRATE`:
+    `3*rate_sum`, `3*bitrate_bps`, `3*8*Fs` fit 32 bits, the divisor is positive; every stream's encoder accepts its
+    rate (it is > 0) and stores a value inside its own ctl range 500 … 300000·channels. -/
+theorem msStream_ctl (l : MsLayout) (fs fsz br i : Int) (hr : 500 ≤ msRate l fs fsz br i) :
+    ∃ v, msStreamUserBitrate l fs fsz br i = some v ∧ 500 ≤ v ∧
+      v ≤ 300000 * (if i < l.nbCoupled then 2 else 1) ∧ v ≤ msRate l fs fsz br i := by
+  unfold msStreamUserBitrate
+  dsimp only
+  rw [if_neg (by omega)]
+  refine ⟨_, rfl, ?_, ?_, ?_⟩ <;> split <;> omega
+
+theorem msRateSum_range (l : MsLayout) (hl : MsLayoutOk l) (fs fsz nch br : Int)
+    (hfs : fs = 8000 ∨ fs = 12000 ∨ fs = 16000 ∨ fs = 24000 ∨ fs = 48000) (hleg : legalFrame fs fsz = true)
+    (hn1 : l.nbStreams + l.nbCoupled ≤ nch) (hn2 : nch ≤ 255) (hbr : MsBrOk nch br) :
+    500 * l.nbStreams ≤ msRateSum l fs fsz br ∧ msRateSum l fs fsz br ≤ 81600000 := by
+  obtain ⟨-, r1, r2, -, -, q1, q2⟩ := legal_rate fs fsz hfs hleg
+  have hn := hl.n1
+  by_cases ha : l.ambisonics = true
+  · obtain ⟨t1, t2, -⟩ := ambi_total_range l hl fs fsz nch br (by omega) (by omega) q1 q2 hn1 hn2 hbr
+    obtain ⟨R, -, hR, hs, -, s2, -⟩ := msAmbi_sum l hl fs fsz nch br ha (by omega) (by omega) q1 q2 hn1 hn2 hbr
+    have : l.nbStreams * 500 ≤ l.nbStreams * R := Int.mul_le_mul_of_nonneg_left hR (by omega)
+    omega
+  · have ha' : l.ambisonics = false := by cases h : l.ambisonics <;> simp_all
+    have hin := surIn_of l hl fs fsz nch br hfs hleg hn1 hn2 hbr
+    have F := sur_facts l fs fsz nch br hin
+    obtain ⟨hhi, hlo⟩ := msSur_sum l fs fsz nch br hin ha'
+    generalize msSurVals l fs fsz br = v at *
+    obtain ⟨L01, -, u0, ueq, nneq, nn1, nn2, -, co1, co2, b1, b2, lo1, lo2, -⟩ := F
+    obtain ⟨p2a, p2b⟩ := mul_range v.channelOffset v.nbNormal 16000 255 (by omega) co2 (by omega) nn2
+    obtain ⟨p3a, p3b⟩ := mul_range v.lfeOffset v.nbLfe 9000 1 (by omega) lo2 (by omega) (by omega)
+    have p4 : 2000 * v.nbNormal ≤ v.channelOffset * v.nbNormal := Int.mul_le_mul_of_nonneg_right co1 (by omega)
+    have hc0 := hl.c0
+    rcases Int.lt_or_le v.bitrate (v.channelOffset * v.nbNormal + v.lfeOffset * v.nbLfe) with hX | hX
+    · have := hlo hX; omega
+    · have := hhi hX; omega
+
+/-- The clamp arithmetic of `opus_multistream_encode_native` (:882-886) stays inside 32 bits. -/
+theorem msClamp_fits (l : MsLayout) (hl : MsLayoutOk l) (fs fsz nch br : Int)
+    (hfs : fs = 8000 ∨ fs = 12000 ∨ fs = 16000 ∨ fs = 24000 ∨ fs = 48000) (hleg : legalFrame fs fsz = true)
+    (hn1 : l.nbStreams + l.nbCoupled ≤ nch) (hn2 : nch ≤ 255) (hbr : MsBrOk nch br) :
+    fitsI32 (3 * msRateSum l fs fsz br) = true ∧ fitsI32 (3 * br) = true ∧ fitsI32 (3 * 8 * fs) = true ∧
+    0 < 3 * 8 * fs / fsz := by
+  obtain ⟨s1, s2⟩ := msRateSum_range l hl fs fsz nch br hfs hleg hn1 hn2 hbr
+  obtain ⟨-, -, -, d1, -, -, -⟩ := legal_rate fs fsz hfs hleg
+  have hn := hl.n1
+  have hc := hl.c0
+  have hA : OPUS_AUTO = -1000 := rfl
+  have hM : OPUS_BITRATE_MAX = -1 := rfl
+  unfold MsBrOk at hbr
+  refine ⟨?_, ?_, ?_, d1⟩ <;> apply fits_of <;> omega
+
+/-- **Multistream budget split with the real rate allocation**: `ms_encode_ret_le_out` with `rate_sum` computed by
+    `rate_allocation` and NO hypothesis on it — for CBR with OPUS_AUTO the clamp of :882 never goes below
+    `smallest_packet` (`ms_auto_enough`). -/
+theorem ms_encode_ret_le_out_alloc (l : MsLayout) (hl : MsLayoutOk l) (fs fsz vbr br maxData : Int) (xs : List MsStream)
+    (hfs : fs = 8000 ∨ fs = 12000 ∨ fs = 16000 ∨ fs = 24000 ∨ fs = 48000) (hleg : legalFrame fs fsz = true)
+    (hlen : (xs.length : Int) = l.nbStreams) (hsmall : msSmallest l.nbStreams fs fsz ≤ maxData)
+    (hok : msAllOk l.nbStreams fs fsz vbr (msMaxBytesAlloc l vbr br fs fsz maxData) xs 0 0) :
+    msBudgetsOk l.nbStreams fs fsz (msMaxBytesAlloc l vbr br fs fsz maxData) xs 0 0 ∧
+    1 ≤ msLoop l.nbStreams fs fsz vbr (msMaxBytesAlloc l vbr br fs fsz maxData) xs 0 0 ∧
+    msLoop l.nbStreams fs fsz vbr (msMaxBytesAlloc l vbr br fs fsz maxData) xs 0 0 ≤ maxData ∧
+    (vbr = 0 → msLoop l.nbStreams fs fsz vbr (msMaxBytesAlloc l vbr br fs fsz maxData) xs 0 0 =
+       msMaxBytesAlloc l vbr br fs fsz maxData) := by
+  unfold msMaxBytesAlloc at *
+  refine ms_encode_ret_le_out l.nbStreams fs fsz vbr br (msRateSum l fs fsz br) maxData xs hl.n1 hlen hsmall ?_ hok
+  intro _ hb
+  rw [hb]
+  exact ms_auto_enough l hl fs fsz hfs hleg
 
 end Opus.EncSkel.Proofs
